@@ -96,6 +96,12 @@ CLAIMS = {
         text="FollowLinks is run on generated trees with relative, absolute, escaping, chained, cyclic, self-referential and dangling links and request lists with existing, missing, through-link and wildcard paths, on on-disk and synthetic file systems wrapped in a Walk counter. Checked: termination (<=10^4 Walk calls), result sorted / prefix-free / relative / empty when a request resolves to the root, every symlink the reference resolver traverses and every final location covered by an element, and after a real transfer with those follow-paths every request resolves to the same location, type and bytes in the destination. Sampled, no proof.",
         note="Three root causes in followlinks.go (guard keyed by link, wildcard in a middle component, lexical cleaning of link targets) are listed known findings with heuristic classifiers; wildcard expansion through symlinked directories is not modelled by the reference.",
         ref="4 C18"),
+    "C04": dict(
+        category="fault_enumeration",
+        technique="rapid-drawn base cases, then exhaustive enumeration of the fault position k for every fault kind through harness-owned stream/source/callback hooks; termination decided by goroutine-dump quiescence under an explicit transport model; C01's snapshot oracle for 'no false success' and for the follow-up transfer",
+        text="For each generated base case (small trees and 150-300-file fan-out, capacities 0/1/32, fresh and dirty destinations, notify on/off) one fault-free run counts the operations; then every position k is run for each kind: stream broken at the k-th SendMsg/RecvMsg of either endpoint, either call's context cancelled after its k-th packet, walk error at entry k, read error after j bytes of file k, ContentHasher/NotifyHashed error at call k. The harness tears an endpoint down only by the fault, its context, or the peer's return; a run is 'stuck' iff every goroutine with an fsutil frame is blocked with an unchanged stack (no wall-clock verdict). Checked per run: both calls return, no fsutil goroutine survives, Receive==nil implies destination equals source, Send==nil implies the receiver's FIN reached it, and a follow-up fault-free transfer into the leftovers succeeds and converges. Exhaustive in k for small cases, strided for large fan-out in the quick tier; schedules are perturbed, not enumerated.",
+        note="SIGKILL of a receiver sub-process is not exercised in this round. Liveness by quiescence cannot see a livelock (no retry loops exist). The thorough tier also runs half of the shards under the race detector.",
+        ref="4 C04"),
 }
 
 NOT_YET = "check not built yet in this round (planned, see DESIGN.md section 9)"
